@@ -57,7 +57,13 @@ NSYNC_CPP_START_
    read from n->parent.  That parent stays allocated only while *n is on its
    "children" list, so *n is removed from the list only by a thread that finds
    n->disconnecting==1, its own contribution:  the last of the disconnecting
-   threads performs the disconnection.  */
+   threads performs the disconnection.
+
+   While a thread waits in WAIT_FOR_NO_CHILDREN() for the disconnecting
+   children of *n to leave, one of them may be freed and hand its own children
+   to *n.  The thread that does so sets n->children_adopted, which ends the
+   wait;  the waiter then treats the new children as it treated the others,
+   and waits again.  */
 
 /* Set the expiry time in *n to t */
 static void set_expiry_time (nsync_note n, nsync_time t) {
@@ -71,6 +77,13 @@ static void set_expiry_time (nsync_note n, nsync_time t) {
 /* Return whether n->children is empty.  Assumes n->note_mu held. */
 static int no_children (const void *v) {
 	return (nsync_dll_is_empty_ (((nsync_note)v)->children));
+}
+
+/* Return whether n->children is empty, or has acquired children that have not
+   yet been examined by the waiting thread.  Assumes n->note_mu held. */
+static int no_children_or_adopted (const void *v) {
+	return (nsync_dll_is_empty_ (((nsync_note)v)->children) ||
+		((nsync_note)v)->children_adopted);
 }
 
 #define WAIT_FOR_NO_CHILDREN(pred_, n_) nsync_mu_wait (&(n_)->note_mu, &pred_, (n_), NULL)
@@ -104,18 +117,21 @@ static void note_notify_child (nsync_note n, nsync_note parent) {
 			ATM_STORE_REL (&nw->waiting, 0);
 			nsync_mu_semaphore_v (nw->sem);
 		}
-		for (p = nsync_dll_first_ (n->children); p != NULL; p = next) {
-			nsync_note child = DLL_NOTE (p);
-			next = nsync_dll_next_ (n->children, p);
-			nsync_mu_lock (&child->note_mu);
-			if (child->disconnecting == 0) {
-				child->disconnecting++;
-				note_notify_child (child, n);
-				child->disconnecting--;
+		do {
+			n->children_adopted = 0;
+			for (p = nsync_dll_first_ (n->children); p != NULL; p = next) {
+				nsync_note child = DLL_NOTE (p);
+				next = nsync_dll_next_ (n->children, p);
+				nsync_mu_lock (&child->note_mu);
+				if (child->disconnecting == 0) {
+					child->disconnecting++;
+					note_notify_child (child, n);
+					child->disconnecting--;
+				}
+				nsync_mu_unlock (&child->note_mu);
 			}
-			nsync_mu_unlock (&child->note_mu);
-		}
-		WAIT_FOR_NO_CHILDREN (no_children, n);
+			WAIT_FOR_NO_CHILDREN (no_children_or_adopted, n);
+		} while (!no_children (n));
 	}
 	if (parent != NULL && n->disconnecting == 1) {
 		parent->children = nsync_dll_remove_ (parent->children,
@@ -230,24 +246,31 @@ void nsync_note_free (nsync_note n) {
 		nsync_mu_lock (&parent->note_mu);
 		nsync_mu_lock (&n->note_mu);
 	}
-	for (p = nsync_dll_first_ (n->children); p != NULL; p = next) {
-		nsync_note child = DLL_NOTE (p);
-		next = nsync_dll_next_ (n->children, p);
-		nsync_mu_lock (&child->note_mu);
-		if (child->disconnecting == 0) {
-			n->children = nsync_dll_remove_ (n->children,
-							 &child->parent_child_link);
-			if (parent != NULL) {
-				child->parent = parent;
-				parent->children = nsync_dll_make_last_in_list_ (
-					parent->children, &child->parent_child_link);
-			} else {
-				child->parent = NULL;
+	do {
+		n->children_adopted = 0;
+		for (p = nsync_dll_first_ (n->children); p != NULL; p = next) {
+			nsync_note child = DLL_NOTE (p);
+			next = nsync_dll_next_ (n->children, p);
+			nsync_mu_lock (&child->note_mu);
+			if (child->disconnecting == 0) {
+				n->children = nsync_dll_remove_ (n->children,
+								 &child->parent_child_link);
+				if (parent != NULL) {
+					child->parent = parent;
+					parent->children = nsync_dll_make_last_in_list_ (
+						parent->children, &child->parent_child_link);
+					/* A thread notifying or freeing *parent may
+					   already have examined its children. */
+					parent->children_adopted = 1;
+					WAKEUP_NO_CHILDREN (parent);
+				} else {
+					child->parent = NULL;
+				}
 			}
+			nsync_mu_unlock (&child->note_mu);
 		}
-		nsync_mu_unlock (&child->note_mu);
-	}
-	WAIT_FOR_NO_CHILDREN (no_children, n);
+		WAIT_FOR_NO_CHILDREN (no_children_or_adopted, n);
+	} while (!no_children (n));
 	if (parent != NULL) {
 		parent->children = nsync_dll_remove_ (parent->children,
 						      &n->parent_child_link);
